@@ -4,6 +4,7 @@ mod checks;
 mod grammar;
 mod layout;
 mod oracles2;
+mod oracles3;
 mod progs;
 mod oracles;
 mod refscan;
